@@ -19,6 +19,7 @@ func init() {
 		Assumptions: []string{"sync.WaitGroup semantics; a buffered channel of capacity n accepts n sends without a receiver"},
 		Run:         runC17,
 		Controls: []Control{
+			{Name: "drain-deferred-after-cancel", File: "pkg/group/exec.go", Old: "func ExecuteRace(ctx context.Context, members []Member) (proto.Message, int, error) {\n\tcancelCtx, cancelFunc := context.WithCancel(ctx)\n\tdefer cancelFunc()\n", New: "func ExecuteRace(ctx context.Context, members []Member) (proto.Message, int, error) {\n\tcancelCtx, cancelFunc := context.WithCancel(ctx)\n\tdefer cancelFunc()\n\tdrainCh := make(chan memberResponse)\n\tclose(drainCh)\n\tdefer func() {\n\t\tfor range drainCh {\n\t\t}\n\t}()\n", Expect: "R17.8"},
 			{Name: "most-as-any", File: "pkg/group/exec.go", Old: "\tcase ExecutionStrategyMost:\n\t\treturn ExecuteMost(ctx, members)", New: "\tcase ExecutionStrategyMost:\n\t\treturn ExecuteAny(ctx, members)", Expect: "R17.1"},
 			{Name: "threshold-geq", File: "pkg/group/exec.go", Old: "\tif errCount > allowedErrors {\n\t\treturn results, firstError\n\t}", New: "\tif errCount >= allowedErrors {\n\t\treturn results, firstError\n\t}", Expect: "R17.4"},
 			{Name: "results-at-zero", File: "pkg/group/exec.go", Old: "\t\tresults[response.i] = response.msg", New: "\t\tresults[0] = response.msg", Expect: "R17.4"},
@@ -40,6 +41,8 @@ const groupPkg = "pkg/group"
 
 func runC17(c *an.Ctx) {
 	r177(c)
+	r178(c)
+	c.Min("R17.8", 3)
 	c.Min("R17.7", 6)
 	r171(c)
 	r172(c)
@@ -1033,4 +1036,84 @@ func firstFailureGuard(conds []an.CondEdge) bool {
 		}
 	}
 	return false
+}
+
+// r178: once the outcome is decided the remaining members are cancelled BEFORE anything waits for them. Deferred
+// calls run in reverse order, so a deferred function that receives from the members' channel (a "drain the stragglers"
+// helper) must be deferred before the cancel, i.e. run after it; deferred after the cancel it waits for members that
+// nobody has told to stop (Race and Fast then return only when the slowest member does - or never).
+func r178(c *an.Ctx) {
+	const rule = "R17.8"
+	receives := func(f *ssa.Function) bool {
+		found := false
+		for _, g := range append(an.WithClosures(f), an.TransparentCalleesOf(f, 1)...) {
+			an.Instrs(g, func(in ssa.Instruction) {
+				switch x := in.(type) {
+				case *ssa.UnOp:
+					if x.Op == token.ARROW {
+						found = true
+					}
+				case *ssa.Select:
+					for _, st := range x.States {
+						if st.Dir == types.RecvOnly {
+							found = true
+						}
+					}
+				}
+			})
+		}
+		return found
+	}
+	n := 0
+	for _, fn := range c.Prog.FuncsIn("pkg/group") {
+		if c.Prog.IsGenerated(fn.Pos()) || fn.Parent() != nil {
+			continue
+		}
+		var cancelDefer *ssa.Defer
+		var others []*ssa.Defer
+		an.Instrs(fn, func(in ssa.Instruction) {
+			d, ok := in.(*ssa.Defer)
+			if !ok {
+				return
+			}
+			isCancel := false
+			for _, s0 := range an.SourcesOpaque(d.Call.Value) {
+				if ex, isEx := s0.(*ssa.Extract); isEx && ex.Index == 1 {
+					if cl, isCall := ex.Tuple.(*ssa.Call); isCall && an.CalleeName(cl) == "context.WithCancel" {
+						isCancel = true
+					}
+				}
+			}
+			if isCancel {
+				cancelDefer = d
+			} else {
+				others = append(others, d)
+			}
+		})
+		if cancelDefer == nil {
+			continue
+		}
+		n++
+		bad := ""
+		var where ssa.Instruction = cancelDefer
+		for _, d := range others {
+			var callee *ssa.Function
+			if f := an.ClosureFn(d.Call.Value); f != nil {
+				callee = f
+			} else if f := d.Call.StaticCallee(); f != nil && len(f.Blocks) > 0 {
+				callee = f
+			}
+			if callee == nil || !receives(callee) {
+				continue
+			}
+			// registered after the cancel => runs before it
+			if an.Dominates(cancelDefer, d) {
+				bad, where = an.FuncName(callee), d
+			}
+		}
+		c.SawFunc(an.FuncName(fn))
+		c.Check(bad == "", rule, an.FuncName(fn)+"|the remaining members are cancelled before anything waits for them", where.Pos(), "the deferred cancel runs first",
+			"the deferred "+bad+" receives from the members and is deferred after the cancel, so at return it runs BEFORE the cancel: the strategy waits for members nobody has cancelled (Race/Fast return with the slowest member instead of the first, and hang if the others only return on ctx.Done)")
+	}
+	c.Count("cancel_defers", n)
 }
